@@ -22,11 +22,19 @@ var serverFaults = []string{
 	"accept-repeated-params", "nack-forward-references", "fail-idempotent-delete",
 	"fail-implicit-replace", "program-non-primary",
 	"get-omits-nh", "get-omits-nhg", "get-omits-ipv4", "get-omits-ipv6", "get-mislabels-ni",
+	// verdict-rewriting servers: one class of operation is answered with the wrong verdict
+	"allow-delete-referenced", "ack-invalid-entries", "accept-replace-of-missing", "accept-disallowed-forward-reference",
+	"fail-mpls", "fail-ipv6", "fail-delete", "fail-cross-instance-reference",
+	// session-rule-breaking servers
+	"accept-multi-field-messages", "accept-zero-election-id", "accept-unsupported-params", "accept-mismatched-params",
+	"leak-results-to-other-clients", "flush-on-new-primary", "fail-entries-with-metadata",
 }
 
 // strictFaults: every designated test in which the fault manifested must fail (not just one of them),
-// because each of those tests asks for exactly the data the fault withholds.
-var strictFaults = map[string]bool{"get-omits-nh": true, "get-omits-nhg": true, "get-omits-ipv4": true, "get-omits-ipv6": true, "get-mislabels-ni": true}
+// because each of those tests asks for exactly the data the fault withholds / checks exactly the verdict or
+// the session rule the fault breaks. (For the remaining faults the wrapper's "fired" counter also moves in
+// tests that do not depend on the withheld behaviour, so one failing designated test is required.)
+var strictFaults = map[string]bool{"allow-delete-referenced": true, "ack-invalid-entries": true, "accept-replace-of-missing": true, "accept-disallowed-forward-reference": true, "fail-mpls": true, "fail-ipv6": true, "fail-delete": true, "fail-cross-instance-reference": true, "accept-multi-field-messages": true, "accept-zero-election-id": true, "accept-unsupported-params": true, "accept-mismatched-params": true, "leak-results-to-other-clients": true, "flush-on-new-primary": true, "fail-entries-with-metadata": true, "get-omits-nh": true, "get-omits-nhg": true, "get-omits-ipv4": true, "get-omits-ipv6": true, "get-mislabels-ni": true}
 
 // designated returns the predicate selecting the tests written for the requirement a fault breaks.
 func designated(fault string) func(name string) bool {
@@ -67,6 +75,36 @@ func designated(fault string) func(name string) bool {
 		return has("Implicit replace")
 	case "program-non-primary":
 		return has("Election - Lower election ID", "Election - Unannounced master", "Election - Incrementing election ID", "Election - Decrementing election ID", "Flush from non-elected")
+	case "allow-delete-referenced":
+		return has("that is referenced - failure")
+	case "ack-invalid-entries":
+		return has("Error: Empty NextHopGroup", "Error: Invalid prefix", "Error: Missing NextHopGroup", "Add to a nonexistent network instance")
+	case "accept-replace-of-missing":
+		return has("entry that does not exist")
+	case "accept-disallowed-forward-reference":
+		return has("Add a forward reference to a server that disallows it")
+	case "fail-mpls":
+		return has("MPLS ")
+	case "fail-ipv6":
+		return has("Add IPv6 entry", "Get for installed IPv6")
+	case "fail-delete":
+		return has("entry successfully", "MPLS delete entry", "Delete IPv4 entry within default", "Add-Delete-Add")
+	case "fail-cross-instance-reference":
+		return has("references a NHG in a different network instance")
+	case "accept-multi-field-messages":
+		return has("in same ModifyRequest")
+	case "accept-zero-election-id":
+		return has("Sending election ID as zero")
+	case "accept-unsupported-params":
+		return has("invalid persist/redundancy parameters")
+	case "accept-mismatched-params":
+		return has("differing parameters is rejected", "mismatched parameters is rejected")
+	case "leak-results-to-other-clients":
+		return has("must not be sent to other clients")
+	case "flush-on-new-primary":
+		return has("Active entries after new master connects")
+	case "fail-entries-with-metadata":
+		return has("Add Metadata for IPv4 entry", "Add IPv6 entry with metadata")
 	}
 	return func(string) bool { return false }
 }
@@ -109,6 +147,65 @@ type faultyModify struct {
 	failIDs    map[uint64]bool
 	inject     []*spb.ModifyRequest
 	swallowRes int // election responses to swallow (injected announcements)
+	gone       bool
+	ops        map[uint64]*spb.AFTOperation
+	sr         *suiteRun
+	lastElec   *spb.Uint128
+}
+
+// rewriteVerdict: for the verdict-rewriting faults, the status this server reports instead of st for op (or st itself).
+func (f *faultyModify) rewriteVerdict(op *spb.AFTOperation, st spb.AFTResult_Status) spb.AFTResult_Status {
+	if op == nil {
+		return st
+	}
+	failed, okd := st == spb.AFTResult_FAILED, st == spb.AFTResult_RIB_PROGRAMMED || st == spb.AFTResult_FIB_PROGRAMMED
+	isDel := op.GetOp() == spb.AFTOperation_DELETE
+	switch f.fault {
+	case "allow-delete-referenced":
+		if failed && isDel && (op.GetNextHop() != nil || op.GetNextHopGroup() != nil) {
+			return spb.AFTResult_RIB_PROGRAMMED
+		}
+	case "ack-invalid-entries":
+		if failed && op.GetOp() == spb.AFTOperation_ADD && op.GetIpv4() != nil {
+			return spb.AFTResult_RIB_PROGRAMMED
+		}
+	case "accept-replace-of-missing":
+		if failed && op.GetOp() == spb.AFTOperation_REPLACE {
+			return spb.AFTResult_RIB_PROGRAMMED
+		}
+	case "accept-disallowed-forward-reference":
+		if failed && op.GetOp() == spb.AFTOperation_ADD {
+			return spb.AFTResult_RIB_PROGRAMMED
+		}
+	case "fail-mpls":
+		if okd && op.GetMpls() != nil {
+			return spb.AFTResult_FAILED
+		}
+	case "fail-ipv6":
+		if okd && op.GetIpv6() != nil {
+			return spb.AFTResult_FAILED
+		}
+	case "fail-delete":
+		if okd && isDel {
+			return spb.AFTResult_FAILED
+		}
+	case "fail-cross-instance-reference":
+		if okd && !isDel && op.GetIpv4().GetIpv4Entry().GetNextHopGroupNetworkInstance() != nil {
+			return spb.AFTResult_FAILED
+		}
+	case "fail-entries-with-metadata":
+		if okd && !isDel && (op.GetIpv4().GetIpv4Entry().GetEntryMetadata() != nil || op.GetIpv6().GetIpv6Entry().GetEntryMetadata() != nil) {
+			return spb.AFTResult_FAILED
+		}
+	}
+	return st
+}
+
+var rewriteFaults = map[string]bool{"allow-delete-referenced": true, "ack-invalid-entries": true, "accept-replace-of-missing": true,
+	"accept-disallowed-forward-reference": true, "fail-mpls": true, "fail-ipv6": true, "fail-delete": true, "fail-cross-instance-reference": true, "fail-entries-with-metadata": true}
+
+func supportedParams(p *spb.SessionParameters) bool {
+	return p.GetRedundancy() == spb.SessionParameters_SINGLE_PRIMARY && p.GetPersistence() == spb.SessionParameters_PRESERVE
 }
 
 func (f *faultyModify) Recv() (*spb.ModifyRequest, error) {
@@ -120,9 +217,83 @@ func (f *faultyModify) Recv() (*spb.ModifyRequest, error) {
 		}
 		m, err := f.GRIBI_ModifyServer.Recv()
 		if err != nil {
+			f.gone = true
 			return m, err
 		}
+		for _, op := range m.Operation {
+			f.ops[op.GetId()] = op
+		}
+		fired := func() { simrt.Active().Fault("srv-fault:" + f.fault) }
 		switch f.fault {
+		case "accept-multi-field-messages":
+			n := 0
+			if m.Params != nil {
+				n++
+			}
+			if m.ElectionId != nil {
+				n++
+			}
+			if len(m.Operation) > 0 {
+				n++
+			}
+			if n > 1 {
+				// taken apart and processed field by field instead of being rejected
+				fired()
+				var parts []*spb.ModifyRequest
+				if m.Params != nil {
+					parts = append(parts, &spb.ModifyRequest{Params: m.Params})
+				}
+				if m.ElectionId != nil {
+					parts = append(parts, &spb.ModifyRequest{ElectionId: m.ElectionId})
+				}
+				if len(m.Operation) > 0 {
+					parts = append(parts, &spb.ModifyRequest{Operation: m.Operation})
+				}
+				f.inject = append(f.inject, parts[1:]...)
+				return parts[0], nil
+			}
+		case "accept-zero-election-id":
+			if id := m.ElectionId; id != nil && id.High == 0 && id.Low == 0 && m.Params == nil && len(m.Operation) == 0 {
+				fired()
+				f.GRIBI_ModifyServer.Send(&spb.ModifyResponse{ElectionId: &spb.Uint128{}})
+				continue
+			}
+		case "accept-unsupported-params":
+			if m.Params != nil && !supportedParams(m.Params) {
+				fired()
+				c := proto.Clone(m).(*spb.ModifyRequest)
+				c.Params.Redundancy, c.Params.Persistence = spb.SessionParameters_SINGLE_PRIMARY, spb.SessionParameters_PRESERVE
+				return c, nil
+			}
+		case "accept-mismatched-params":
+			if m.Params != nil && supportedParams(m.Params) {
+				// every session is recorded with the first session's acknowledgement type, so a second client
+				// asking for something else is accepted
+				if f.sr.firstParams == nil {
+					f.sr.firstParams = proto.Clone(m.Params).(*spb.SessionParameters)
+				} else if !proto.Equal(f.sr.firstParams, m.Params) {
+					fired()
+					c := proto.Clone(m).(*spb.ModifyRequest)
+					c.Params = proto.Clone(f.sr.firstParams).(*spb.SessionParameters)
+					return c, nil
+				}
+			}
+		case "flush-on-new-primary":
+			if id := m.ElectionId; id != nil && m.Params == nil && len(m.Operation) == 0 {
+				if cur, _ := f.srv.VerifElection(); cur != nil && less128([2]uint64{cur.High, cur.Low}, [2]uint64{id.High, id.Low}) {
+					rc, _ := f.srv.VerifRIB().RIBContents()
+					n := 0
+					var nis []string
+					for ni, r := range rc {
+						nis = append(nis, ni)
+						n += len(r.GetAfts().Ipv4Entry) + len(r.GetAfts().NextHop) + len(r.GetAfts().NextHopGroup)
+					}
+					if n > 0 {
+						fired() // entries of the previous primary do not survive the hand-over
+						f.srv.VerifRIB().Flush(nis)
+					}
+				}
+			}
 		case "accept-repeated-params":
 			if m.Params != nil && m.ElectionId == nil && len(m.Operation) == 0 {
 				if f.sawParams {
@@ -173,6 +344,32 @@ func (f *faultyModify) Recv() (*spb.ModifyRequest, error) {
 }
 
 func (f *faultyModify) Send(r *spb.ModifyResponse) error {
+	if rewriteFaults[f.fault] && len(r.Result) > 0 {
+		c := proto.Clone(r).(*spb.ModifyResponse)
+		c.Result = nil
+		done := map[uint64]bool{}
+		for _, res := range r.Result {
+			st := f.rewriteVerdict(f.ops[res.GetId()], res.GetStatus())
+			if st != res.GetStatus() {
+				simrt.Active().Fault("srv-fault:" + f.fault)
+				if done[res.GetId()] {
+					continue // RIB and FIB acknowledgement both became FAILED: one is enough
+				}
+				done[res.GetId()] = true
+				res = &spb.AFTResult{Id: res.GetId(), Status: st}
+			}
+			c.Result = append(c.Result, res)
+		}
+		r = c
+	}
+	if f.fault == "leak-results-to-other-clients" && len(r.Result) > 0 {
+		for _, o := range f.sr.modifyStreams {
+			if o != f && !o.gone {
+				simrt.Active().Fault("srv-fault:" + f.fault)
+				o.GRIBI_ModifyServer.Send(proto.Clone(r).(*spb.ModifyResponse))
+			}
+		}
+	}
 	switch f.fault {
 	case "nack-forward-references":
 		for _, res := range r.Result {
@@ -300,7 +497,9 @@ func installFault(sr *suiteRun, n *simnet.Net, s *server.Server, fault string) {
 		// (nack-forward-references: the server itself is built with WithNoRIBForwardReferences;
 		// the wrapper only observes whether a forward reference was actually NACKed)
 		n.WrapModify = func(m spb.GRIBI_ModifyServer) spb.GRIBI_ModifyServer {
-			return &faultyModify{GRIBI_ModifyServer: m, fault: fault, srv: s, failIDs: map[uint64]bool{}}
+			fm := &faultyModify{GRIBI_ModifyServer: m, fault: fault, srv: s, failIDs: map[uint64]bool{}, ops: map[uint64]*spb.AFTOperation{}, sr: sr}
+			sr.modifyStreams = append(sr.modifyStreams, fm)
+			return fm
 		}
 	}
 }
